@@ -569,8 +569,47 @@ func checkC11(c *run.Ctx) {
 			}
 		})
 	})
+	// Phase 3: values that contain characters a joined-up comparison might use as a separator: a permutation whose
+	// values, written one after the other, read like an adjustment's is still a different tuple
+	c.Phase("separator", func() {
+		seps := []string{",", "|", ":", ";", "/", " ", "=", "\x00", "\x1f", "\n", "::", "-", "."}
+		c.Parallel("sep", len(seps)*len(skips)*4, func(i int, r *rand.Rand) {
+			sep := seps[i%len(seps)]
+			skip := skips[(i/len(seps))%len(skips)]
+			variant := i / (len(seps) * len(skips))
+			dims := [][]string{{"arch", "os"}, {"a", "b", "c"}}[variant%2]
+			ms := refmodel.MatrixSpec{Dims: dims, Values: map[string][]string{}}
+			for _, d := range dims {
+				ms.Values[d] = []string{"p", "q"}
+			}
+			adj := map[string]string{}
+			perm := map[string]string{}
+			for j, d := range dims {
+				adj[d], perm[d] = "v", "v"
+				if j == 0 {
+					adj[d], perm[d] = "p", "p"+sep+"q"
+				}
+				if j == 1 {
+					adj[d], perm[d] = "q"+sep+"r", "r"
+				}
+			}
+			if variant >= 2 {
+				adj, perm = perm, adj // the other direction: the adjustment holds the joined value in its first dimension
+			}
+			ms.Adjs = []refmodel.AdjSpec{{With: adj, Skip: skip}}
+			id := run.CaseID("sep", i)
+			c11Eval(c, id, ms, perm, c11Step(ms), "literal, separator-like characters inside values", true)
+			// and a setup combination next to a skipping adjustment it only resembles when joined up
+			ms2 := refmodel.MatrixSpec{Dims: dims, Values: map[string][]string{}, Adjs: []refmodel.AdjSpec{{With: adj, Skip: true}}}
+			for _, d := range dims {
+				ms2.Values[d] = []string{perm[d], "other"}
+			}
+			c11Eval(c, id, ms2, perm, c11Step(ms2), "literal, separator-like characters inside values", false)
+			c.Count("separator_cases", 2)
+		})
+	})
 	c.Finish("exploration",
-		"phase 1 enumerates every matrix with dimensions in {anonymous; a; a,b; a,b,c}, value lists over subsets of {x,y} (incl. empty), 0-2 adjustments (0-1 for three dimensions; quick tier 0-1 for two) drawn from all tuples over {x,y,z}, three malformed shapes and four skip kinds, against every permutation over every subset of the dimensions plus an unknown one with values {x,y,z}; phase 2 draws random larger matrices (up to 5 dimensions, repeated and conflicting adjustments) and permutations; a sample is built through Parse instead of literally. distinct_nontrivial counts distinct matrices (phase 1) and distinct (dims, adjustments, anonymous) shapes (phase 2)",
+		"phase 3: two- and three-dimension matrices whose values contain separator-like characters, with a permutation that equals an adjustment only when the values are written one after the other; phase 1 enumerates every matrix with dimensions in {anonymous; a; a,b; a,b,c}, value lists over subsets of {x,y} (incl. empty), 0-2 adjustments (0-1 for three dimensions; quick tier 0-1 for two) drawn from all tuples over {x,y,z}, three malformed shapes and four skip kinds, against every permutation over every subset of the dimensions plus an unknown one with values {x,y,z}; phase 2 draws random larger matrices (up to 5 dimensions, repeated and conflicting adjustments) and permutations; a sample is built through Parse instead of literally. distinct_nontrivial counts distinct matrices (phase 1) and distinct (dims, adjustments, anonymous) shapes (phase 2)",
 		map[string]any{"exhaustive": false},
 		[]string{"dimensions whose value list is null are not generated (undefined dimension)", "which error is returned is not checked"})
 }
